@@ -251,6 +251,9 @@ impl AggregateExecutionEngine {
     }
 
     pub fn execute_result(&mut self, aggregate_statement: &AggregateStatement) -> ExecutionResult<ResultRow> {
+        // DISTINCT removes duplicates within one result table; rows shown in an earlier table (follow mode) are not duplicates
+        self.distinct_values = DistinctValues::new();
+
         for (group_key, subgroups) in self.group_aggregators.iter_mut() {
             for (aggregate_index, group_aggregator) in subgroups.iter_mut() {
                 if let Some(value) = group_aggregator.update_value()? {
